@@ -435,6 +435,11 @@ fn convert_job(ctx: &Ctx, job: usize, jobs: usize, thorough: bool) -> Stats {
                 }
             }
         }
+        // an edge list larger than any I/O buffer must be reproduced completely
+        let big: Vec<(String, String)> = (0..3_000).map(|i| (format!("n{}", i % 50), format!("m{}", i % 37))).collect();
+        convert_case(ctx, &mut st, &big, false, false, None, "large");
+        convert_case(ctx, &mut st, &big, false, true, None, "large-dot");
+        st.bump("large_inputs");
         convert_case(ctx, &mut st, &[], false, false, None, "empty");
         convert_case(ctx, &mut st, &[], true, true, Some(2), "empty-col");
         convert_case(ctx, &mut st, &[], false, false, Some(0), "empty-col0");
